@@ -75,4 +75,13 @@ CHECKS = {
     "C15": dict(engine=_C, technique="runtime monitoring: wire round trip (simple_repr/json/from_repr) of messages harvested from real algorithm and infrastructure runs, harness-side deep comparison, differential by-reference vs through-the-wire runs, pickle round trip of AgentDef",
                 text="Held on the executions observed: every harvested algorithm message, every orchestration/discovery/replication message, and the ComputationDefs of all four graph models decode into objects with the same fields, links, neighbours and relation values (harness deep comparison); running each algorithm with all messages pushed through the wire ends on the same assignment as by reference; unpickled AgentDefs keep name, extra attributes, hosting costs, routes.",
                 note="Wire = what HttpCommunicationLayer/MPCHttpHandler do; generated orchestration contents use only shapes the runtime produces (string-keyed dicts)."),
+    "C28": dict(engine=_C, technique="runtime monitoring: declaration-derived oracle on generated calls of prepare_algo_params / AlgorithmDef.build_with_default_param / build_algo_def for all shipped algorithm modules",
+                text="Held on the executions observed: returned parameter sets equal the declared names; user values (incl. falsy 0/0.0 and 'name:value' strings) are converted to the declared type and checked against allowed values, defaults fill the rest, unknown names and invalid values raise (ValueError/TypeError, SystemExit in the CLI helper) for all 14 algorithm modules and all four entry points.",
+                note="Lossy-but-convertible numerics (float for int, bool) may be converted or rejected."),
+    "C29": dict(engine=_C, technique="runtime monitoring: independent cartesian-product oracle on generated batch parameter definitions, replicated under 3 PYTHONHASHSEED worker processes and compared across them",
+                text="Held on the executions observed: every expansion equals the independent product as a multiset with no duplicate, repeated calls and the three hash seeds give the same order, and every combination's option string tokenises back to each chosen (name, value) / (name, sub:value) exactly once, incl. two nested groups.",
+                note=">= 1 parameter, distinct space-free values."),
+    "C31": dict(engine=_C, technique="runtime monitoring: dict-based reference model on generated AgentDef arguments and create_agents calls (list, int list, range, tuple-of-lists indexes)",
+                text="Held on the executions observed: route(self)==0, specific routes, default route, specific/default hosting costs, extra attributes and extra_attr() match the model on known and unknown names, and every mass-created agent matches, accessor by accessor, an individually built AgentDef with the same arguments.",
+                note="Finite name universe (5 agents, 4 computations) plus unknown names."),
 }
